@@ -298,6 +298,10 @@ PROPS = {
         "level": "proof",
         "level_prefix": "Partial proof -- contracts discharged without bound on the mechanisms named below, not the whole statement (bounded stand-ins and what is left out are listed): ",
         "units": ["xfr"],
+        "vx_search": {"bin": "c10_search_small_streams", "crate": "replay_net", "release": True,
+                      "what": "about 78000 response streams of at most 6 records over {SOA 1, SOA 2, SOA 3, A .1, A .2}, as AXFR and IXFR, in one "
+                              "and in two messages, through the real XfrResponseInterpreter, compared with the stream automaton of the unit's "
+                              "contract -- run only to find a concrete stream for a failed Verus obligation"},
         "kani": [],
         "replays": [
             {"bin": "d3_xfr_wrong_qtype", "crate": "replay_net", "finding": "D3"},
